@@ -27,22 +27,30 @@ theorem execIL_call_hex {ms : MacroSem} {subs : SubEnv} {f : Nat} {σ σb : MSta
   rw [execIL]
   simp only [hargs, bind, Except.bind, hex_startsWith, ↓reduceIte, hex_drop, hsub, hbody]
 
+/-- a successful call of `hex_<name>` ran the compiled body of `name` — or, if no body is supplied, `name` is the
+    specification-level routine `set_usr_field` (`ILSem.lean`) -/
 theorem execIL_call_hex_inv {ms : MacroSem} {subs : SubEnv} {f : Nat} {σ σ' : MState} {name : String}
     {args : List ILPure} (h : execIL ms subs (f+1) (.call ("hex_" ++ name) args) σ = .ok σ') :
-    ∃ vs ps body σb, evalPures ms σ [] args = .ok vs ∧ lookupS name subs = some (ps, body) ∧
-      execIL ms subs f body { σ with params := ps.zip vs } = .ok σb ∧ σ' = { σb with params := σ.params } := by
+    (∃ vs ps body σb, evalPures ms σ [] args = .ok vs ∧ lookupS name subs = some (ps, body) ∧
+      execIL ms subs f body { σ with params := ps.zip vs } = .ok σb ∧ σ' = { σb with params := σ.params }) ∨
+    (lookupS name subs = none ∧ ∃ vs, evalPures ms σ [] args = .ok vs ∧ setUsrFieldIL σ args vs = .ok σ') := by
   rw [execIL] at h
   obtain ⟨vs, hvs, h⟩ := bind_ok h
   rw [if_pos (hex_startsWith name), hex_drop] at h
   cases hl : lookupS name subs with
-  | none => rw [hl] at h; simp at h
+  | none =>
+    rw [hl] at h
+    simp only at h
+    split at h
+    · exact Or.inr ⟨rfl, vs, hvs, h⟩
+    · simp at h
   | some pb =>
     obtain ⟨ps, body⟩ := pb
     rw [hl] at h
     simp only at h
     obtain ⟨σb, hb, h⟩ := bind_ok h
     injection h with h
-    exact ⟨vs, ps, body, σb, hvs, rfl, hb, h.symm⟩
+    exact Or.inl ⟨vs, ps, body, σb, hvs, rfl, hb, h.symm⟩
 
 theorem writes_call_hex {subs : SubEnv} {f : Nat} {name : String} {args : List ILPure} {ps : List String}
     {body : ILEffect} (hsub : lookupS name subs = some (ps, body)) :
@@ -72,12 +80,16 @@ theorem call_preserves_disjoint_locals' {ms : MacroSem} {subs : SubEnv} {f : Nat
     (h : execIL ms subs (f+1) (.call ("hex_" ++ name) args) σ = .ok σ')
     (hd : calleeDisjoint subs f name L = true) :
     ∀ n ∈ L, lookupS n σ'.locals = lookupS n σ.locals := by
-  obtain ⟨vs, ps, body, σb, _, hsub, _, _⟩ := execIL_call_hex_inv h
-  refine (call_preserves_disjoint_locals h hsub ?_).1
-  intro n hn
-  simp only [calleeDisjoint, hsub, List.all_eq_true, Bool.not_eq_eq_eq_not, Bool.not_true] at hd
-  have := hd n hn
-  simpa using this
+  rcases execIL_call_hex_inv h with ⟨vs, ps, body, σb, _, hsub, _, _⟩ | ⟨hnone, vs, _, hset⟩
+  · refine (call_preserves_disjoint_locals h hsub ?_).1
+    intro n hn
+    simp only [calleeDisjoint, hsub, List.all_eq_true, Bool.not_eq_eq_eq_not, Bool.not_true] at hd
+    have := hd n hn
+    simpa using this
+  · -- no compiled body: the specification-level routine writes its abstract cell only
+    intro n _
+    exact (setUsrFieldIL_frame hset).locals n (by
+      unfold usrWrites; split <;> simp)
 
 /-- registers and memory: a call changes them only through the body's own `WRITE_REG`/`STOREW` -/
 theorem call_preserves_regs_mem {ms : MacroSem} {subs : SubEnv} {f : Nat} {σ σ' : MState} {name : String}
